@@ -776,8 +776,12 @@ def gen_rule_zone_session(rng, r, with_table=False, do_find=True, do_findn=False
         return {"op": "find", "a": f}
     for u in pts[:nprobe]:
         yield {"op": "lookup", "a": {"u": W(u), "via": "ref"}}
-        if do_find and MINT + 2**32 < u < MAXT - 2**32:
+        if do_find and MINT + 4 * 10**5 < u < MAXT - 4 * 10**5:
             yield search(u + rng.choice(offs) + rng.choice([-1, 0, 0, 1]))
+    if do_find and rng.random() < 0.5:
+        # the year guard of the rule evaluator: searches must succeed in i32::MIN+2 .. i32::MAX-2 (and may be refused outside)
+        for yy in (I32MIN + 1, I32MIN + 2, I32MIN + 3, I32MAX - 3, I32MAX - 2, I32MAX - 1):
+            yield search(days_from_civil(yy, rng.randint(2, 11), rng.randint(1, 28)) * DAY + rng.randint(0, 86399))
     if do_find:
         # the four boundary seconds T+a-1, T+a, T+b-1, T+b of every rule-generated transition of one year and of the table/rule
         # junction, and local times around New Year
@@ -789,14 +793,50 @@ def gen_rule_zone_session(rng, r, with_table=False, do_find=True, do_findn=False
         a, b = min(offs), max(offs)
         for T in trans:
             for L in (T + a - 1, T + a, T + b - 1, T + b, T + (a + b) // 2):
-                if MINT + 2**32 < L < MAXT - 2**32:
+                if MINT + 4 * 10**5 < L < MAXT - 4 * 10**5:
                     yield search(L)
         ny = days_from_civil(y, 1, 1) * DAY
         for L in (ny - 3600, ny - 1800, ny - 1, ny, ny + 900, ny + 3600):
             yield search(L)
 
 
+def year_crossing_rule(rng):
+    """both yearly instants displaced across New Year by day times of several days (late-December days with large positive
+    times, early-January days with large negative times)"""
+    so = rng.choice([0, 3600, -18000, 36000])
+    do = so + rng.choice([3600, -3600, 1800])
+    late = [["J", rng.randint(355, 365)], ["Z", rng.randint(355, 365)], ["M", 12, rng.choice([4, 5]), rng.randint(0, 6)]]
+    early = [["J", rng.randint(1, 10)], ["Z", rng.randint(0, 9)], ["M", 1, rng.choice([1, 2]), rng.randint(0, 6)]]
+    k = rng.randrange(4)
+    big = lambda: rng.randint(86400, 604799)
+    if k == 0:
+        sd, st, ed, et = rng.choice(late), big(), rng.choice(late), big()
+    elif k == 1:
+        sd, st, ed, et = rng.choice(early), -big(), rng.choice(early), -big()
+    elif k == 2:
+        sd, st, ed, et = rng.choice(late), big(), rng.choice(early), rng.randint(-3600, 7200)
+    else:
+        sd, st, ed, et = rng.choice(early), -big(), rng.choice(late), rng.randint(0, 90000)
+    return {"k": "alt", "std": {"off": so, "dst": 0, "des": B("STD")}, "dst": {"off": do, "dst": 1, "des": B("DST")}, "sd": sd, "st": st, "ed": ed, "et": et}
+
+
+def new_year_probes(rng, r):
+    y = rng.choice([rng.randint(1971, 2400), 2004, 2021, 2100])
+    ny = days_from_civil(y, 1, 1) * DAY
+    pts = {ny + k * 43200 + d for k in range(-16, 17) for d in (0,)}
+    for yy in (y - 2, y - 1, y, y + 1):
+        for t in (rule_S(r, yy), rule_E(r, yy)):
+            pts.update([t - 1, t, t + 1])
+    return sorted(pts)
+
+
 def gen_c04(rng, nrules, do_find=False):
+    for i in range(max(10, nrules // 8)):
+        r = year_crossing_rule(rng)
+        z = {"tr": [], "ty": [dict(r["std"]), dict(r["dst"])], "lp": [], "rule": r}
+        yield zone_event(z)
+        for u in new_year_probes(rng, r):
+            yield {"op": "lookup", "a": {"u": W(u), "via": "ref"}}
     for t in K2_RULES + K1_RULES:
         yield from gen_rule_zone_session(rng, named_rule(t), with_table=False, do_find=do_find, nprobe=60)
     for i in range(nrules):
